@@ -1340,3 +1340,168 @@ Proof.
     cbn; try discriminate.
   all: destruct (scan _ _) as [ec r1]; destruct ec; [discriminate|]; destruct (sweep _ _ _); discriminate.
 Qed.
+
+(* ---------- accounting of the container operations still to be completed (the gate of DestroyContainer) ---------- *)
+Definition wop (i : instr) : nat :=
+  match i with IInvoke o => if counted o then 1 else 0 | IEndOp true => 1 | _ => 0 end.
+Definition wstk (st : list instr) : nat := list_sum (map wop st).
+Definition wloc (l : loc) : nat := length (filter counted (prog l)) + wstk (stk l).
+Definition InvK (g : glob) (ls : list loc) : Prop := busy g = list_sum (map wloc ls).
+
+Lemma wstk_app a b : wstk (a ++ b) = wstk a + wstk b.
+Proof. unfold wstk. rewrite map_app, list_sum_app. reflexivity. Qed.
+Lemma reenter_busy g m g' push : reenter g m = (g', push) -> busy g' = busy g /\ wstk push = 0.
+Proof.
+  unfold reenter. destruct (cstate g); [|intros H; inversion H; auto].
+  destruct m as [|[|[|[|[|m]]]]]; intros H; inversion H; subst; auto.
+Qed.
+Lemma invoke_busy g o g' push : invoke g o = (g', push) -> busy g' = busy g /\ wstk push = wop (IInvoke o).
+Proof.
+  unfold invoke, new_obj. destruct o; destruct (negb (cstate g =? 0));
+    repeat match goal with
+           | |- context [if ?x then _ else _] => destruct x
+           | |- context [match ?x with _ => _ end] => destruct x
+           end; intros H; inversion H; subst; auto.
+Qed.
+
+Lemma exec_busy t c g r i g' r' push es : wop i <= busy g -> exec t c g r i = Some (g', r', push, es) ->
+  busy g' + wop i = busy g + wstk push.
+Proof.
+  intros Hb Hx. destruct i; norm_exec Hx.
+  all: try (solve [
+    repeat match type of Hx with
+           | context [if ?x then _ else _] => destruct x eqn:?
+           | context [match ?x with _ => _ end] => destruct x eqn:?
+           end; try discriminate;
+    inversion Hx; subst; clear Hx; cbn in *; lia ]).
+  - destruct (invoke g o) as [g1 push1] eqn:IV. inversion Hx; subst. destruct (invoke_busy _ _ _ _ IV). lia.
+  - destruct (cstate g =? 2); [inversion Hx; subst; cbn; lia|]. norm_exec Hx. inversion Hx; subst; cbn; lia.
+  - destruct (memn (ncb g) (throws (cf g))); [inversion Hx; subst; cbn; lia|].
+    destruct (reenter _ _) as [g2 push2] eqn:RE. inversion Hx; subst. destruct (reenter_busy _ _ _ _ RE) as [A B].
+    rewrite wstk_app, B, A. destruct rest; cbn; lia.
+  - destruct (src <? 2); [|inversion Hx; subst; cbn; lia].
+    destruct (reenter _ _) as [g2 push2] eqn:RE. inversion Hx; subst. destruct (reenter_busy _ _ _ _ RE) as [A B].
+    rewrite B, A. cbn. lia.
+Qed.
+
+Lemma wloc_le ls t l : nth_error ls t = Some l -> wloc l <= list_sum (map wloc ls).
+Proof.
+  revert t. induction ls as [|h r IH]; destruct t; cbn [nth_error map]; rewrite ?list_sum_cons; intros H; try discriminate.
+  - inversion H; subst. lia.
+  - specialize (IH _ H). lia.
+Qed.
+
+Lemma wloc_eq l : wloc l = length (filter counted (prog l)) + wstk (stk l).
+Proof. reflexivity. Qed.
+Lemma wstk_cons i st : wstk (i :: st) = wop i + wstk st.
+Proof. reflexivity. Qed.
+
+Lemma InvK_step g ls t c l g' l' es :
+  InvK g ls -> nth_error ls t = Some l -> tstep t c g l = Some (g', l', es) -> InvK g' (upd ls t l').
+Proof.
+  apply (P_step InvK).
+  - intros g0 ls0 t0 l0 i st c0 g1 r1 push es0 HK Hl Hs Hx. unfold InvK in *.
+    pose proof (sum_upd wloc ls0 t0 l0 (Loc (prog l0) (push ++ st) r1) Hl) as SU.
+    pose proof (wloc_le ls0 t0 l0 Hl) as LE.
+    rewrite (wloc_eq l0) in SU, LE. rewrite (wloc_eq (Loc _ _ _)) in SU. cbn [prog stk] in SU. rewrite Hs in SU, LE.
+    rewrite wstk_app, wstk_cons in SU. rewrite wstk_cons in LE.
+    assert (wop i <= busy g0) as Hb by lia.
+    pose proof (exec_busy _ _ _ _ _ _ _ _ _ Hb Hx). lia.
+  - intros g0 ls0 t0 l0 o p HK Hl Hs Hp. unfold InvK in *.
+    pose proof (sum_upd wloc ls0 t0 l0 (Loc p [IInvoke o] (rv l0)) Hl) as SU.
+    rewrite (wloc_eq l0) in SU. rewrite (wloc_eq (Loc _ _ _)) in SU. cbn [prog stk] in SU. rewrite Hs, Hp in SU.
+    rewrite wstk_cons in SU. cbn [filter wop] in SU. unfold wstk in SU. cbn [map list_sum fold_right] in SU.
+    destruct (counted o); cbn [length] in SU; lia.
+Qed.
+
+Lemma InvK_init c progs : InvK (gl (init c progs)) (thr (init c progs)).
+Proof.
+  unfold InvK, init. cbn [gl thr busy]. rewrite map_map. f_equal. apply map_ext. intros p. unfold wloc. cbn. lia.
+Qed.
+Lemma R_busy c progs s : R c progs s -> InvK (gl s) (thr s).
+Proof. intros H. eapply reachable_inv; [apply InvK_step|apply InvK_init|exact H]. Qed.
+
+(* what a thread that cannot move (without a time-out) looks like *)
+Opaque settle.
+Lemma blocked_shape c progs s t l : R c progs s -> nth_error (thr s) t = Some l -> tstep t 0 (gl s) l = None ->
+  fin l = true \/
+  (exists i st a, stk l = i :: st /\ is_acquire i = true /\ mtx (gl s) = Some a /\ a <> t /\ enabledD s a 0) \/
+  (exists st, stk l = IDcGate :: st /\ busy (gl s) <> 1).
+Proof.
+  intros HR Hl Hn. destruct (stk l) as [|i st] eqn:Hs.
+  - left. unfold tstep in Hn. rewrite Hs in Hn. unfold fin. rewrite Hs. destruct (prog l) as [|o p]; [reflexivity|].
+    exfalso. cbn in Hn. destruct (invoke (gl s) o) as [g1 push1]. cbn in Hn.
+    destruct (settle _ _ _ _ _ _) as [[[? ?] ?] ?]. discriminate.
+  - right.
+    assert (HX : visible (gl s) i = true /\ exec t 0 (gl s) (rv l) i = None).
+    { unfold tstep in Hn. rewrite Hs in Hn. destruct (visible (gl s) i).
+      - split; [reflexivity|]. destruct (exec t 0 (gl s) (rv l) i) as [[[[? ?] ?] ?]|]; [|reflexivity].
+        destruct (settle _ _ _ _ _ _) as [[[? ?] ?] ?]. discriminate.
+      - destruct (settle _ _ _ _ _ _) as [[[? ?] ?] ?]. discriminate. }
+    destruct HX as [_ HX].
+    assert (ACQ : forall a, mtx (gl s) = Some a -> is_acquire i = true ->
+                  exists i0 st0 a0, i :: st = i0 :: st0 /\ is_acquire i0 = true /\ mtx (gl s) = Some a0 /\ a0 <> t /\ enabledD s a0 0).
+    { intros a Ha Hq. exists i, st, a. repeat split; auto.
+      - intros ->. apply (never_relocks_own_mutex c progs s t i HR); auto. exists l, st. auto.
+      - apply (holder_enabled c progs s a 0 HR Ha). }
+    destruct i; cbn [exec] in HX; try discriminate.
+    all: try (destruct (cstate (gl s) =? 2); [discriminate|]).
+    all: try (unfold lock_acq in HX; destruct (locked (cf (gl s))); [|discriminate];
+              destruct (mtx (gl s)) as [a|] eqn:Ha; [|discriminate]; left; apply (ACQ a eq_refl eq_refl)).
+    all: try (unfold try_acq in HX; destruct (locked (cf (gl s)));
+              [destruct (mtx (gl s)) as [a|] eqn:Ha; [left; apply (ACQ a eq_refl eq_refl)|]|]).
+    all: try (destruct (unlock (gl s)); discriminate).
+    all: try (destruct (invoke (gl s) o); discriminate).
+    all: repeat match type of HX with
+                | context [if ?x then _ else _] => destruct x eqn:?
+                | context [match ?x with _ => _ end] => destruct x eqn:?
+                end; try discriminate.
+    all: try (right; eexists; split; [reflexivity|]; apply Nat.eqb_neq; assumption).
+    all: idtac.
+Qed.
+Transparent settle.
+
+(* deadlock freedom: when nothing can move (spurious wake-ups aside: there are none here), every thread has
+   finished or is the harness gate of DestroyContainer waiting for other container operations *)
+Lemma quiescent_shape c progs s t l : R c progs s -> quiescent glob loc tstep s -> nth_error (thr s) t = Some l ->
+  fin l = true \/ (exists st, stk l = IDcGate :: st /\ busy (gl s) <> 1).
+Proof.
+  intros HR HQ Hl.
+  assert (Hn : tstep t 0 (gl s) l = None).
+  { destruct (tstep t 0 (gl s) l) as [r|] eqn:E; [|reflexivity]. exfalso. apply (HQ t 0); [lia|]. exists l, r. auto. }
+  destruct (blocked_shape c progs s t l HR Hl Hn) as [F|[[i [st [a [_ [_ [_ [_ He]]]]]]]|G]]; auto.
+  exfalso. apply (HQ a 0); [lia|exact He].
+Qed.
+
+(* the gate opens as soon as this is the only container operation left *)
+Lemma gate_opens c progs s t l st cc : R c progs s -> nth_error (thr s) t = Some l -> stk l = IDcGate :: st ->
+  list_sum (map wloc (thr s)) = 1 -> enabledD s t cc.
+Proof.
+  intros HR Hl Hs H1. pose proof (R_busy _ _ _ HR) as K. unfold InvK in K.
+  destruct (tstep_head_enabled t cc (gl s) l IDcGate st Hs) as [r Hr]; [|exists l, r; auto].
+  intros _. cbn [exec]. rewrite K, H1. discriminate.
+Qed.
+
+(* with at most one pending DestroyContainer whose thread has no later container operation: no deadlock at all *)
+Lemma no_deadlock c progs s : R c progs s -> quiescent glob loc tstep s ->
+  (forall t l st, nth_error (thr s) t = Some l -> stk l = IDcGate :: st ->
+     wloc l = 1 /\ forall u l', u <> t -> nth_error (thr s) u = Some l' -> ~ (exists st', stk l' = IDcGate :: st')) ->
+  all_fin glob loc fin s = true.
+Proof.
+  intros HR HQ HG. unfold all_fin. apply forallb_forall. intros l Hin. apply In_nth_error in Hin. destruct Hin as [t Hl].
+  destruct (quiescent_shape c progs s t l HR HQ Hl) as [F|[st [Hs Hb]]]; [exact F|exfalso].
+  destruct (HG t l st Hl Hs) as [W1 HO].
+  apply (HQ t 0); [lia|]. apply (gate_opens c progs s t l st 0 HR Hl Hs).
+  assert (forall u l', u <> t -> nth_error (thr s) u = Some l' -> wloc l' = 0) as Z.
+  { intros u l' Hne Hu. destruct (quiescent_shape c progs s u l' HR HQ Hu) as [F|[st' [Hs' _]]].
+    - unfold fin in F. unfold wloc. destruct (stk l'); [|discriminate]. destruct (prog l'); [reflexivity|discriminate].
+    - exfalso. apply (HO u l' Hne Hu). exists st'. exact Hs'. }
+  clear -Hl W1 Z. revert t Hl Z. induction (thr s) as [|h r IH]; intros t Hl Z; destruct t; try discriminate.
+  - cbn in Hl. inversion Hl; subst. cbn [map]. rewrite list_sum_cons, W1.
+    assert (list_sum (map wloc r) = 0); [|lia].
+    clear -Z. assert (forall u l', nth_error r u = Some l' -> wloc l' = 0) as Z' by (intros u l' H; apply (Z (S u) l'); [lia|exact H]).
+    clear Z. induction r as [|h r IH]; [reflexivity|]. cbn [map]. rewrite list_sum_cons, (Z' 0 h eq_refl), IH; [reflexivity|].
+    intros u l' H. apply (Z' (S u) l' H).
+  - cbn in Hl. cbn [map]. rewrite list_sum_cons, (Z 0 h); [|lia|reflexivity].
+    apply (IH t Hl). intros u l' Hne Hu. apply (Z (S u) l'); [lia|exact Hu].
+Qed.
